@@ -15,4 +15,6 @@ def run(tier):
     pool.settle_rule(run, f, "C12-SETTLE")
     pool.keep_scheduling_rule(run, f, "C12-DRAIN")
     pool.dashmap_reentrancy_rule(run, f, "C12-NO-SELF-DEADLOCK")
+    # a waiter for a task that will never run (cancelled before it started) gets an error
+    pool.run_once_rule(run, f, "C12-RUN-OR-CANCELLED", settle_rid="C12-CANCEL-SETTLE")
     return run.finish()
